@@ -243,6 +243,80 @@ def correspond(ctx):
             return ("rejects-what-rfc7516-accepts", "jose rejects a token that the independent RFC 7516 implementation (Gallina model) decrypts")
         return None
 
+    # ---- several recipients and the rcp argument: a named recipient is opened only by ITS key
+    for _ in range(4 if ctx["tier"] == "quick" else 30):
+        enc = rnd.choice(ENCS)
+        k1, k2, k3 = G.oct_key(rnd, 16), G.oct_key(rnd, 32), G.oct_key(rnd, 16)
+        k2 = dict(k2, alg="A256KW")
+        o2 = G.harness(bdir, ["jweenc2\t%s\t%s\t%s\t%s" % (G.dumps({"protected": {"enc": enc}}), G.dumps(k1), G.dumps(k2), b"two".hex())])[0]
+        if o2 == "ERR" or o2.startswith("CRASH"):
+            rep.violation("enc2-failed", "encrypting to two recipients failed: " + o2[:80], {"enc": enc})
+            continue
+        tok2 = json.loads(o2.split("\t")[0])
+        rc = tok2.get("recipients") or []
+        if len(rc) != 2:
+            continue
+        OK2 = "OK " + b"two".hex()
+        # (rcp is ONE recipient object; the library has no array form for it)
+        for rcp, key, want in ((rc[0], k1, OK2), (rc[1], k2, OK2), (rc[0], k2, "ERR"), (rc[1], k1, "ERR"),
+                               (rc[0], [k3, k1], OK2), (rc[1], {"keys": [k3, k1]}, "ERR"), (rc[1], [k1, k2], OK2), ({}, k1, "ERR")):
+            c = "jwedec\t%s\t%s\t%s" % (G.dumps(tok2), G.dumps(rcp), G.dumps(key))
+            expected[c] = want
+            sym_cases.append(c)
+            dist["named recipients (rcp argument)"] += 1
+
+    # ---- streaming decryption (jose_jwe_dec_io, ciphertext text fed in chunks): the verdict of the final done() and the
+    #      bytes delivered must be those of the one-shot call -- for valid tokens, mutated ones, wrong keys
+    stream_cases, stream_ref = [], {}
+    rs = random.Random(ctx["seed"] + 2)
+    allc = sym_cases + pk_cases
+    for c in (allc if len(allc) < 400 else rs.sample(allc, 400)):
+        f = c.split("\t")
+        try:
+            tj = json.loads(f[1])
+            if not isinstance(tj.get("ciphertext"), str):
+                continue      # streaming: the caller feeds the ciphertext; an object without the member has none to feed
+            n = len(tj["ciphertext"])
+        except Exception:
+            continue
+        if n > 6000:
+            continue
+        def sizes_from_cuts(cuts):
+            out, prev = [], 0
+            for q in sorted(set(cuts)) + [n]:
+                out.append(q - prev)
+                prev = q
+            return ",".join(str(x) for x in out)
+        forms = ["-" if n == 0 else str(n)]
+        if 0 < n <= 48:
+            forms.append(",".join(["1"] * n))
+        if n > 1:
+            forms.append(sizes_from_cuts([1]))
+            forms.append(sizes_from_cuts([n - 1]))
+        if n > 4:
+            forms.append(sizes_from_cuts(rs.sample(range(1, n), 3)))
+        for chunks in forms:
+            sc = "jwedecio\t%s\t%s\t%s\t%s" % (f[1], f[2], f[3], chunks)
+            stream_cases.append(sc)
+            stream_ref[sc] = c
+    one = dict(zip(allc, G.harness(bdir, allc))) if stream_cases else {}
+    for sc, o in zip(stream_cases, G.harness(bdir, stream_cases)):
+        ref = one.get(stream_ref[sc], "")
+        if o.startswith("CRASH"):
+            rep.violation("stream:crash", "crash in streaming decryption: " + o[:200], {"case": sc[:3000]})
+            continue
+        oo = o.split(" ")
+        ok_stream = len(oo) >= 3 and oo[1] == "T"
+        if ref.startswith("OK"):
+            want_hex = ref[3:] if ref[3:] != "-" else ""
+            got_hex = (oo[2] if len(oo) > 2 and oo[2] not in ("x", "-") else "") if ok_stream else None
+            if not ok_stream or got_hex != want_hex:
+                rep.violation("stream:differs-from-one-shot", "streaming decryption fed as %s gives %s where the one-shot call returns the plaintext" % (sc.split("\t")[4][:40], o[:60]), {"case": sc[:3000]})
+        elif ref == "ERR" and ok_stream:
+            rep.violation("stream:accepts-what-one-shot-rejects", "streaming decryption fed as %s ends with done() = true although the one-shot call rejects the same object (modified member / foreign key)" % sc.split("\t")[4][:40],
+                          {"case": sc[:3000], "implementation": o[:200]})
+    dist["streaming decryption vs one-shot"] = len(stream_cases)
+
     st = runner.standard(ctx, sym_cases, oracle, lambda c, o: True, on_disagree=on_disagree,
                          rule="tokens produced by jose_jwe_enc for key-management x content-encryption x zip x aad (absent/shorter/equal/longer than protected) with parameters in the protected header, split between protected and unprotected, or with no protected header at all (aad alone authenticated); decryption with the recipient key, with a foreign key, in key sets; single-character mutations of protected, aad, iv, ciphertext, tag, encrypted_key and of p2s/p2c/epk/wrapped iv/tag; structural mutations (member removed, tag emptied, aad removed/truncated/extended/added). Symmetric and PBES2 cases also run on the extracted model; ECDH-ES and RSA cases on the implementation with the oracle",
                          dist=dist)
@@ -251,6 +325,6 @@ def correspond(ctx):
         v = oracle(c, o)
         if v:
             rep.violation(v[0], v[1], {"case": c, "implementation": o})
-    st["evaluations"] += len(pk_cases)
+    st["evaluations"] += len(pk_cases) + len(stream_cases)
     st["distinct_nontrivial"] += len(set(pk_cases))
     return st
